@@ -198,11 +198,11 @@ class CallMixin(object):
             if r.exc is not None:
                 out.append(r)
                 continue
-            out += self.ev_args(e, r.st, lambda s2, args, kw, star, r=r: self.apply(
-                s2, r.val, args, kw, e, star))
-        return self.run_ghost_at(e, out)
+            out += self.ev_args(e, r.st, lambda s2, args, kw, star, r=r: self.run_ghost_at(
+                e, self.apply(s2, r.val, args, kw, e, star), args, kw))
+        return out
 
-    def run_ghost_at(self, e, out):
+    def run_ghost_at(self, e, out, args=(), kw=None):
         """sidecar ghost statements attached to a call (contract.ghost_at): executed after the
         call returned normally, so the ghost update is exactly as path-sensitive as the real call"""
         c = self.contract
@@ -221,11 +221,29 @@ class CallMixin(object):
             st = r.st
             for text in stmts:
                 tree = ast.parse(text.strip()).body[0]
-                if not (isinstance(tree, ast.Assign) and isinstance(tree.targets[0], ast.Name) and
-                        tree.targets[0].id in self.spec.ghosts):
-                    self.oos('ghost_at statement must assign a declared ghost: %r' % text, e)
-                val = self.sp(tree.value, st)
-                st = self.ghost_set(st, tree.targets[0].id, val)
+                if not isinstance(tree, ast.Assign):
+                    self.oos('ghost_at statement must be an assignment: %r' % text, e)
+                tgt = tree.targets[0]
+                s2 = st.copy()
+                s2.env = dict(st.env)
+                s2.env['args'] = self.mk_tuple(list(args))
+                import re as _re
+                for kname in _re.findall(r'kw_(\w+)', text):
+                    s2.env['kw_' + kname] = mk_bool(False)
+                for kname, kval in (kw or {}).items():
+                    s2.env['kw_' + kname] = kval
+                if r.val is not None and r.val.ty != PY:
+                    s2.env['call_result'] = r.val
+                val = self.sp(tree.value, s2)
+                if isinstance(tgt, ast.Name) and tgt.id in self.spec.ghosts:
+                    st = self.ghost_set(st, tgt.id, val)
+                elif isinstance(tgt, ast.Attribute):
+                    obj = self.sp(tgt.value, s2)
+                    if not isinstance(obj.ty, TRef):
+                        self.oos('ghost_at target %r is not an object field' % text, e)
+                    st = self.write_field(st, obj.z, obj.ty.cls, tgt.attr, val, e)
+                else:
+                    self.oos('ghost_at statement must assign a declared ghost or ghost field: %r' % text, e)
             res.append(Res(st, r.val))
         return res
 
@@ -514,6 +532,8 @@ class CallMixin(object):
         return self.call_contract(st, c, [fn], {}, node)
 
     def call_qual(self, st, qual, args, kw, node, recv=None, star=None):
+        if qual in self.spec.handlers:
+            return self.spec.handlers[qual](self, st, args, kw, node)
         c = self.spec.contracts.get(qual)
         if c is None:
             # classmethod / staticmethod through class: 'mod:Class.meth'
